@@ -353,6 +353,17 @@ def verify_one(args):
                         continue
                     r, dt, model, _ = _solve(g, o, timeout, want_model=True)
                     stime += dt
+                    if r != "sat" and z3.is_false(o.goal):
+                        # "this path must not exist": decide its feasibility on the
+                        # quantifier-free part of the path condition
+                        from .engine import _has_quant
+                        s2 = z3.Solver()
+                        s2.set("timeout", timeout)
+                        s2.add(*[h for h in o.hyps if not _has_quant(h)])
+                        s2.add(*_ground_axioms(g, [h for h in o.hyps if not _has_quant(h)]))
+                        if s2.check() == z3.sat:
+                            r, model = "sat", s2.model()
+                            o.detail = (o.detail or "") + " [path feasibility decided on the quantifier-free part of the path condition]"
                     if r == "sat":
                         for x in res:
                             if x["name"] == o.name:
